@@ -6,9 +6,12 @@ executor task, let the next scheduled task fall due, fire the client timer} on a
 (protocol v4 HostConnection, protocol v2 HostConnectionPool), the switch issued by `USE ks2` or `set_keyspace`.
 Histories with a second switch (the retry of the same switch, a switch to another keyspace, back to the first one)
 issued after the first one completed, and histories in which a client-side timeout marks a connection for
-replacement while it stays open (orphaned-stream threshold), are explored in configurations of their own.
+replacement while it stays open (orphaned-stream threshold), are explored in configurations of their own.  In the
+'suspend' configurations executor tasks are not atomic: a task (pool creation, connection replacement) is suspended in
+every blocking wait for the answer to a USE of its own, and both switches of the application may happen meanwhile.
 Schedule layer (engine S): the reactor thread delivering the USE result and the server's answers against the
-executor thread replacing a lost or marked connection / creating a pool, every schedule within the preemption bound.
+executor thread replacing a lost or marked connection / creating a pool (and the application thread issuing a second
+switch), every schedule within the preemption bound.
 The harnesses, the oracle and the canonical state are in vt/c20lib.py.
 """
 from vt import explore, sched
@@ -37,14 +40,28 @@ META = {
             '(v4, connection class with orphaned_threshold = 1): at any point one request of the application to a host may '
             'time out on the client, which marks that pool connection for replacement while it stays open; a later request '
             'to the pool schedules HostConnection._replace, which then runs (as a task) before, between or after the USE '
-            'being sent and answered on the old connection.  Quick: all histories to depth 7 (convicting, 3 hosts) and the '
+            'being sent and answered on the old connection.  Suspended-task configurations (2 hosts, two switches ks1 -> ks2 '
+            '-> ks3; v4 and v2 pools; session started with and without a keyspace): an executor task runs as a coroutine; the '
+            'server also holds the blocking USEs the task itself sends (HostConnection / HostConnectionPool constructor, the '
+            'catch-up USE of Session.add_or_renew_pool after the keyspace changed during pool creation, the USE on a '
+            'replacement connection) and the task is suspended in the wait for each, where the executor thread would be '
+            'blocked; the explorer then interleaves every other event - the result of the application\'s USE, pool answers, '
+            'the application\'s next switch (allowed while only USEs of a task are held), the answer to the task\'s USE, and, '
+            'as an event of its own, the task continuing - so zero, one or both switches complete between any two waits '
+            'of a pool creation whose pool is not yet the session\'s (renew: the creation task of the last host\'s pool is '
+            'queued when the history starts) or of a connection replacement (one connection loss).  Quick: all histories to depth 7 (convicting, 3 hosts) and the '
             'complete reachable state space of the other configurations; thorough: deeper, with two losses, two switches '
-            'also on 3 hosts / convicting / two v2 connections per host.  '
+            'also on 3 hosts / convicting / two v2 connections per host, suspended pool creation also with set_keyspace, '
+            'back to the first keyspace, a connection loss, 3 hosts.  '
             'Schedule layer: reactor thread (delivers the USE result at a scheduler-chosen moment, then every server answer) '
             'against the executor thread running HostConnection._replace (pool without connection; pool whose open connection '
             'is marked for replacement) / HostConnectionPool._retrying_replace or '
             'Session.add_or_renew_pool, scheduling points at every virtual primitive and every source line of the switch, '
             'replacement and pool-creation functions, preemption bound 1 (thorough: bound 2 for the v4 replacement scenario).  '
+            'Two-switch schedule scenario (pool creation, session in ks1): a third thread, the application, issues USE ks3 '
+            'as soon as USE ks2 has reported its outcome; the result of each of the two statements reaches the client at '
+            'a moment the scheduler chooses; every order of the three threads at their blocking points (preemption bound 0; '
+            'thorough: also v2 pool creation and v4 connection replacement).  '
             'Oracle, for the latest switch, in every state and again after the default '
             'continuation (every held USE answered successfully, every task run, every scheduled task fired, no client timer): '
             '(1) the switch has completed; (2) if it reports success and no USE of this switch was failed, every probe request '
@@ -52,7 +69,9 @@ META = {
             'switch selected (the server selects what each USE statement it answers successfully names); (3) if the explorer '
             'failed the USE of any pool in this switch (error answer or connection lost while pending) the switch reports an '
             'error, and the error of the switch names every failing host.',
-    'note': 'Handlers are atomic in the history layer; intra-handler preemption is covered by the schedule layer at source-line '
+    'note': 'Handlers are atomic in the history layer (executor tasks of the suspended-task configurations: atomic between '
+            'two blocking waits; one executor worker, the next task starts when the one under way has ended; the blocking waits '
+            'of a task do not time out); intra-handler preemption is covered by the schedule layer at source-line '
             'granularity within the preemption bound.  The canonical state of the history layer is compared against no-dedup '
             'runs in the thorough tier.  A client-side request timeout is not counted as the switch completing.  USEs issued '
             'from executor tasks (blocking ones on replacement connections / new pools) are always answered successfully.  '
@@ -88,6 +107,13 @@ def e_configs(ctx):
         ('v2-core1-2sw-same', dict(two, proto=2, core=1, switches=('ks2', 'ks2'), kinds=KINDS2), full),
         # a connection marked for replacement (orphaned-stream threshold) while it stays open
         ('v4-orphan', dict(two, kinds=KINDS2, max_orphan=1), full),
+        # executor tasks suspended in their blocking waits (not atomic): the pool of a host is being created / a lost
+        # connection is being replaced while the application switches twice
+        ('v4-renew-2sw', dict(two, ks0='ks1', switches=('ks2', 'ks3'), kinds=KINDS2, max_defunct=0, renew=True, suspend=True), full),
+        ('v4-renew-2sw-noks', dict(two, switches=('ks2', 'ks3'), kinds=KINDS2, max_defunct=0, renew=True, suspend=True), full),
+        ('v2-core1-renew-2sw', dict(two, proto=2, core=1, ks0='ks1', switches=('ks2', 'ks3'), kinds=KINDS2, max_defunct=0,
+                                    renew=True, suspend=True), full),
+        ('v4-replace-2sw-suspend', dict(two, ks0='ks1', switches=('ks2', 'ks3'), kinds=KINDS2, suspend=True), full),
     ]
     if ctx.thorough:
         cfgs = [
@@ -115,6 +141,20 @@ def e_configs(ctx):
             ('v4-orphan', dict(two, kinds=KINDS2, max_orphan=1), full),
             ('v4-orphan-ks1-setks', dict(two, kinds=KINDS2, max_orphan=1, ks0='ks1', entry='set_keyspace'), full),
             ('v4-orphan-3hosts', dict(never, kinds=KINDS2, max_orphan=1, max_defunct=0), full),
+            ('v4-renew-2sw', dict(two, ks0='ks1', switches=('ks2', 'ks3'), max_defunct=0, renew=True, suspend=True), full),
+            ('v4-renew-2sw-noks', dict(two, switches=('ks2', 'ks3'), kinds=KINDS2, max_defunct=0, renew=True, suspend=True), full),
+            ('v4-renew-2sw-setks', dict(two, ks0='ks1', entry='set_keyspace', switches=('ks2', 'ks3'), kinds=KINDS2, max_defunct=0,
+                                        renew=True, suspend=True), full),
+            ('v4-renew-2sw-back', dict(two, ks0='ks1', switches=('ks2', 'ks1'), kinds=KINDS2, max_defunct=0, renew=True,
+                                       suspend=True), full),
+            ('v4-renew-2sw-loss', dict(two, ks0='ks1', switches=('ks2', 'ks3'), kinds=KINDS2, renew=True, suspend=True), full),
+            ('v4-renew-2sw-3hosts', dict(never, ks0='ks1', switches=('ks2', 'ks3'), kinds=KINDS2, max_defunct=0, renew=True,
+                                         suspend=True), full),
+            ('v2-core1-renew-2sw', dict(two, proto=2, core=1, ks0='ks1', switches=('ks2', 'ks3'), kinds=KINDS2, max_defunct=0,
+                                        renew=True, suspend=True), full),
+            ('v4-replace-2sw-suspend', dict(two, ks0='ks1', switches=('ks2', 'ks3'), kinds=KINDS2, suspend=True), full),
+            ('v2-core1-replace-2sw-suspend', dict(two, proto=2, core=1, ks0='ks1', switches=('ks2', 'ks3'), kinds=KINDS2,
+                                                  suspend=True), full),
         ]
     return cfgs
 
@@ -126,6 +166,9 @@ def s_configs(ctx):
         ('renew-v4-ks1', dict(base, scenario='renew', ks0='ks1'), 1),
         ('replace-v2', dict(base, scenario='replace', proto=2, core=1), 1),
         ('replace-orphaned-v4', dict(base, scenario='replace-orphaned'), 1),
+        # two switches while the pool is being created (application thread; blocking points and the arrival of
+        # each USE result are free choices, so bound 0 already covers every order of the three parties at their waits)
+        ('renew-v4-ks1-2sw', dict(base, scenario='renew', ks0='ks1', switches=('ks2', 'ks3')), 0),
     ]
     if ctx.thorough:
         cfgs = [
@@ -138,6 +181,9 @@ def s_configs(ctx):
             ('renew-v2', dict(base, scenario='renew', proto=2, core=1), 1),
             ('replace-orphaned-v4', dict(base, scenario='replace-orphaned'), 1),
             ('replace-orphaned-v4-ks1', dict(base, scenario='replace-orphaned', ks0='ks1'), 1),
+            ('renew-v4-ks1-2sw', dict(base, scenario='renew', ks0='ks1', switches=('ks2', 'ks3')), 0),
+            ('renew-v2-ks1-2sw', dict(base, scenario='renew', proto=2, core=1, ks0='ks1', switches=('ks2', 'ks3')), 0),
+            ('replace-v4-ks1-2sw', dict(base, scenario='replace', ks0='ks1', switches=('ks2', 'ks3')), 0),
         ]
     return cfgs
 
@@ -149,7 +195,9 @@ def dedup_differential(ctx):
     for name, params, depth in (('v4-never', never, 6), ('v2-core1', dict(never, proto=2, core=1, hosts=2), 7),
                                 ('v4-2sw-same', dict(never, hosts=2, switches=('ks2', 'ks2')), 10),
                                 ('v4-2sw-back', dict(never, hosts=2, ks0='ks1', switches=('ks2', 'ks1')), 9),
-                                ('v4-orphan', dict(never, hosts=2, max_orphan=1), 8)):
+                                ('v4-orphan', dict(never, hosts=2, max_orphan=1), 8),
+                                ('v4-renew-2sw', dict(never, hosts=2, ks0='ks1', switches=('ks2', 'ks3'), max_defunct=0,
+                                                      renew=True, suspend=True), 13)):
         seen = []
         for nodedup in (False, True):
             sub = Ctx(ctx.prop, tier=ctx.tier, seed=ctx.seed, silent=True)
@@ -177,16 +225,20 @@ def run(ctx):
         sched.explore(ctx, 'c20-' + name, sched_harness, params, bound)
     ctx.cov['preemption_bound'] = max(b for _, _, b in s_configs(ctx))
     ctx.cov['rule'] = ('history layer: state = event history replayed on a fresh real Session, deduplicated on (future, session keyspace, '
-                       'pools, hosts, connections incl. server-side keyspace, held requests, queued/scheduled tasks, timers, oracle memory); '
+                       'pools, hosts, connections incl. server-side keyspace, held requests, queued/scheduled tasks, timers, oracle memory, '
+                       'USEs sent by executor tasks and whether a task is suspended / can continue); '
                        'transitions = executions; non-trivial = distinct state reached after the switch arrived in which a USE was failed, '
-                       'a connection was lost or marked for replacement, some pool was not open, or the switch is not the first one.  '
+                       'a connection was lost or marked for replacement, some pool was not open or was being created, or the switch is not '
+                       'the first one.  '
                        'Schedule layer: executions = distinct schedules within the '
                        'preemption bound; non-trivial = a non-default scheduling choice was taken.  outcomes = ([for a later switch: same/other '
                        'target, outcomes of the earlier switches,] pool situations when the switch arrived | scenario, failure kinds '
                        'injected in this switch, outcome of the switch after the default continuation)')
     ctx.assume('handlers are atomic with respect to each other in the history layer; source-line atomicity in the schedule layer (DESIGN.md 3.1)')
     ctx.assume('virtual server answers are well-formed protocol v4 / v2 frames; a USE answered successfully is selected server-side')
-    ctx.assume('USEs sent from executor tasks (replacement connections, new pools) are answered successfully by the server')
+    ctx.assume('USEs sent from executor tasks (replacement connections, new pools) are answered successfully by the server '
+               '(suspended-task configurations: at a moment the explorer chooses, before the wait for them times out)')
+    ctx.assume('suspended-task configurations: one executor worker (no other task starts while one is suspended in a wait)')
     ctx.assume('a client-side request timeout is not a completion of the switch (the no-timeout configurations make this moot)')
     ctx.assume('one keyspace switch at a time (the next one is issued after the previous one completed and no USE is held); '
                'hosts accept new connections')
